@@ -220,7 +220,13 @@ func (e *env) judge(st *step, res *result) {
 	r.Distinct(fmt.Sprintf("%s|%s|%s|%s|%s|%s", e.phase, st.Site, st.Shape, st.Class, res.Mode, outcome))
 
 	if res.panicked != nil {
-		e.violate(keyOf("panic-in-config-update", st.Site), fmt.Sprintf("%s panicked: %v", st.Site, res.panicked), e.witness(st, res, nil))
+		shape := st.Shape
+		if sc := e.s.GetPersistOptions().GetScheduleConfig(); shape == "" && sc.StoreLimit == nil {
+			shape = "served-store-limit-is-null"
+		}
+		e.violate(keyOf("panic-in-config-update", st.Site, shape), fmt.Sprintf("%s panicked: %v (served schedule section before the request: %s)", st.Site, res.panicked, clip(canon(res.before["schedule"]))), e.witness(st, res, nil))
+		// a panicking request leaves no promise about the state: put the served sections back
+		e.restoreServed(res.pre)
 		return
 	}
 
